@@ -28,6 +28,9 @@ JOBS = int(os.environ.get("NUSYM_JOBS", "16"))
 def get_pool():
     global _POOL
     if _POOL is None:
+        # the workers are forked copies of this process: every harness module has to be registered before the fork
+        from . import h_build, h_golomb, h_heur, h_lemma, h_models, h_mp, h_prop, h_shave, h_solve, h_split, h_stack  # noqa: F401
+
         _POOL = mp.get_context("fork").Pool(JOBS)
     return _POOL
 
